@@ -367,9 +367,60 @@ func TestClean(t *testing.T) {
 			if c.Oracle("C03") && firstRead != nil && cycles > 1 {
 				sameAsModel(c, firstRead, lb, "first-read-after-later-cycles")
 			}
+			if len(lb.Exchanges) > 0 && c.Chance("editInPlace", 1, 4) {
+				editInPlace(c, lb)
+			}
 			c.Outcome("nt:ok")
 		})
 	})
+}
+
+// editInPlace: the caller keeps its Bundle object, writes it, changes one thing IN
+// PLACE (a body, a header value, a status, the primary URL) and writes it again:
+// the second output is that of the changed bundle - byte for byte what a freshly
+// built object with the same content yields.
+func editInPlace(c *core.Ctx, lb *gen.LBundle) {
+	b := lb.ToRepo()
+	var w1, w2, w3 bytes.Buffer
+	var e1 error
+	c.Guard("Bundle.WriteTo", func() { _, e1 = b.WriteTo(&w1) })
+	if e1 != nil {
+		return
+	}
+	lb2 := *lb
+	lb2.Exchanges = append([]gen.LExchange(nil), lb.Exchanges...)
+	var single []int
+	for i, e := range lb.Exchanges {
+		if len(lb.Order[e.URL]) == 1 {
+			single = append(single, i)
+		}
+	}
+	if len(single) == 0 {
+		return
+	}
+	i := single[c.Pick("editInPlace.at", len(single))]
+	what := c.PickStr("editInPlace.what", "body", "header-value", "status", "header-added")
+	r := lb2.Exchanges[i].Resp
+	r.Headers = append([]gen.HV(nil), r.Headers...)
+	switch what {
+	case "body":
+		r.Body = append(append([]byte(nil), r.Body...), []byte("+edited")...)
+		b.Exchanges[i].Response.Body = append(b.Exchanges[i].Response.Body, []byte("+edited")...)
+	case "status":
+		r.Status = 200 + (r.Status+1)%300
+		b.Exchanges[i].Response.Status = r.Status
+	default:
+		r.Headers = append(r.Headers, gen.HV{Name: "X-Edited", Value: "later"})
+		b.Exchanges[i].Response.Header["X-Edited"] = []string{"later"}
+	}
+	lb2.Exchanges[i].Resp = r
+	var e2, e3 error
+	c.Guard("Bundle.WriteTo", func() { _, e2 = b.WriteTo(&w2) })
+	c.Guard("Bundle.WriteTo", func() { _, e3 = lb2.ToRepo().WriteTo(&w3) })
+	if c.Oracle("C03", "C04") && ((e2 != nil) != (e3 != nil) || (e2 == nil && !bytes.Equal(w2.Bytes(), w3.Bytes()))) {
+		c.Violation("stale-output", "Bundle.WriteTo", "a Bundle object edited in place (%s of exchange %d) and written again yields bytes that are not the edited bundle's (err %v / %v, %d vs %d bytes)", what, i, e2, e3, w2.Len(), w3.Len())
+	}
+	c.Probe("bundle object edited in place between two writes")
 }
 
 // reuseBufferCycles runs write/read cycles the way a tool does with a single
